@@ -242,7 +242,7 @@ def replace_model(db, old_kind, new_kind, same_name, in_library):
     if f is None:
         raise AnalysisBroken('replace_cell(%s -> %s) not found' % (old_kind, new_kind))
     en = {c['n']: c['v'] for c in db.enum('gdstk::ReferenceType')['consts']}
-    NEWN = 'old' if same_name else 'fresh!'
+    NEWN = {0: 'fresh!', 1: 'old', 2: 'n'}[int(same_name)]          # a longer name, the same name, a name shorter than the old one
 
     lists = []
 
@@ -297,6 +297,13 @@ def replace_model(db, old_kind, new_kind, same_name, in_library):
                 problems.append('strlen of something that is not a string at %s' % node.loc())
                 return (0,)
             return (len(t),)
+        if short == 'strncmp':
+            a, b = text(args[0]), text(args[1])
+            if a is None or b is None:
+                problems.append('a name is compared that is not a string at %s' % node.loc())
+                return (1,)
+            a, b = a[:int(args[2])], b[:int(args[2])]
+            return ((a > b) - (a < b),)
         if short == 'strcmp':
             a, b = text(args[0]), text(args[1])
             if a is None or b is None:
@@ -385,17 +392,17 @@ def check_replace_model(ctx, db):
     for ok_, nk_ in (('Cell', 'Cell'), ('Cell', 'RawCell'), ('RawCell', 'Cell'), ('RawCell', 'RawCell')):
         f = next(x for x in db.fn('gdstk::Library::replace_cell', all=True) if KIND.get(x.params[0]['t']) == ok_ and KIND.get(x.params[1]['t']) == nk_)
         ctx.touch(f)
-        for same in (0, 1):
+        for same in (0, 1, 2):
             for inlib in (1, 0):
                 n += 1
                 pr = replace_model(db, ok_, nk_, same, inlib)
-                ctx.check(not pr, 'R-MODEL.replace', 'replace_cell(%s->%s)/%s,%s' % (ok_, nk_, 'same name' if same else 'new name', 'in library' if inlib else 'not in library'), f.loc(),
+                ctx.check(not pr, 'R-MODEL.replace', 'replace_cell(%s->%s)/%s,%s' % (ok_, nk_, {0: 'new name', 1: 'same name', 2: 'shorter name'}[same], 'in library' if inlib else 'not in library'), f.loc(),
                           'the container is updated, references of the old kind by identity and of the other kind by name point to the new cell with the new kind, by-name references follow the name, nothing else changes', '; '.join(pr[:2]))
     ctx.explored['valuations'] += n
-    ctx.require('R-MODEL.replace scenarios', n, 16)
+    ctx.require('R-MODEL.replace scenarios', n, 24)
 
 
-def rename_model(db, by_name, missing=False):
+def rename_model(db, by_name, missing=False, new_name='fresh!'):
     """Library::rename_cell interpreted (sa/minieval) on a library of three cells - `top`, `old`, `oldx` - whose references are
     by-name (`old`, `oldx`, `ol`), by-pointer (to the renamed cell: its name field is the other member of the union) and raw.
     strlen / strcmp / reallocate / memcpy / get_cell are answered by the harness; comparing the name of a reference that is not
@@ -408,7 +415,7 @@ def rename_model(db, by_name, missing=False):
     if en is None:
         e_ = db.enum('gdstk::ReferenceType')
         en = {c.get('n'): c.get('v') for c in e_.get('items', e_.get('enumerators', []))}
-    NEW = 'fresh!'
+    NEW = new_name
 
     def nref(nm):
         return M.Obj(type=en['Name'], name=nm, kind='name')
@@ -437,6 +444,13 @@ def rename_model(db, by_name, missing=False):
                 problems.append('strlen of something that is not a string at %s' % node.loc())
                 return (0,)
             return (len(t),)
+        if short == 'strncmp':
+            a, b = text(args[0]), text(args[1])
+            if a is None or b is None:
+                problems.append('a name is compared that is not a string at %s' % node.loc())
+                return (1,)
+            a, b = a[:int(args[2])], b[:int(args[2])]
+            return ((a > b) - (a < b),)
         if short == 'strcmp':
             a, b = text(args[0]), text(args[1])
             if a is None or b is None:
@@ -504,7 +518,8 @@ def check_rename(ctx, db):
     # when it does not exist
     for key, kw, fn_, what in ((label + '/by-name-references', dict(by_name=False), f, 'by-name references equal (full strcmp) to the old name are rewritten to the new name, the cell is renamed, nothing else changes'),
                                ('rename_cell(name)/delegates', dict(by_name=True), g, 'rename by name resolves the cell and renames it'),
-                               ('rename_cell(name)/missing', dict(by_name=True, missing=True), g, 'rename by name of a cell that does not exist changes nothing')):
+                               ('rename_cell(name)/missing', dict(by_name=True, missing=True), g, 'rename by name of a cell that does not exist changes nothing'),
+                               (label + '/shorter-new-name', dict(by_name=False, new_name='n'), f, 'a new name shorter than the old one: still only the references equal in full to the old name are rewritten')):
         pr = rename_model(db, **kw)
         ctx.explored['valuations'] += 1
         ctx.check(not pr, 'R-MODEL.rename', key, fn_.loc(), what, '; '.join(pr[:2]))
